@@ -95,6 +95,11 @@ func checkC14(c *Ctx) {
 	}
 	handlers := c.webHandlers()
 	r.Floor("C14/NIL/handlers", "web.Handler conversions in route tables", len(handlers), 1)
+	// the name a handler canonicalises is the router's path variable as the router decoded it
+	// (decided by C04's URL-variable rule): a second decoding step in between turns '+' or
+	// '%25' into other characters and every endpoint then acts on another mailbox or fails
+	nV := c.borrow(func(c2 *Ctx) { c2.c04URLVars(c2.webHandlers(), mbfa) }, "C04/ONE-AUTHORITY", "C14/NAME/url-variable", "the string handed to MailboxForAddress is a lookup in web.Context.Vars, which is written only in NewContext with mux.Vars(req) and never updated")
+	r.Floor("C14/NAME/url-variable", "borrowed obligations", nV, 1)
 
 	// a failed producer's nil result is never used: behind the handlers (the message manager)
 	// and in them, a use of the value of a (value, error) call on the side where the call may
